@@ -131,6 +131,13 @@ pub struct T {
     /// rest of the document in both execution modes)
     #[serde(default)]
     pub ifs: Option<String>,
+    /// Markdown only: a `set ...` line in front of the command (`set -e`, `set -eu`,
+    /// `set -o pipefail`, `set +e`, ...); options are shell state and stay in effect
+    #[serde(default)]
+    pub pre: Option<String>,
+    /// end with the failing last command `(exit N)` instead of `exit N`
+    #[serde(default)]
+    pub fail_last: bool,
 }
 
 #[derive(Clone, Debug, PartialEq, Serialize, Deserialize)]
@@ -582,16 +589,16 @@ fn gen_case(tier: Tier, k: u64, rng: &mut Rng) -> Case {
                 case.stream = "combined".into();
             }
         }
-        case.tests = vec![T { cmd: Cmd::Chunks { chunks: vec![Chunk { fd: 1, data: p }] }, code: 0, ifs: None }];
+        case.tests = vec![T { cmd: Cmd::Chunks { chunks: vec![Chunk { fd: 1, data: p }] }, code: 0, ifs: None, pre: None, fail_last: false }];
         return case;
     }
-    let fam = rng.weighted(&[22, 8, 26, 18, 12, 4, 5, 3, 2, 6, 14, 10, 8]);
+    let fam = rng.weighted(&[22, 8, 26, 18, 12, 4, 5, 3, 2, 6, 14, 10, 8, 12]);
     match fam {
         0 => {
             case.family = "render-direct".into();
             case.mode = "render".into();
             let p = gen_payload(rng, case.strip == Some(true), case.keep_crlf == Some(true), true);
-            case.tests = vec![T { cmd: Cmd::Chunks { chunks: vec![Chunk { fd: 1, data: p }] }, code: 0, ifs: None }];
+            case.tests = vec![T { cmd: Cmd::Chunks { chunks: vec![Chunk { fd: 1, data: p }] }, code: 0, ifs: None, pre: None, fail_last: false }];
         }
         1 => {
             case.family = "crlf-direct".into();
@@ -602,7 +609,7 @@ fn gen_case(tier: Tier, k: u64, rng: &mut Rng) -> Case {
             if rng.bool() {
                 p.push(*rng.pick(&[&b"\r\n"[..], b"ab\r\n", b"\r\r\n", b"\r\n\r\n"]), *rng.pick(&[1u32, 10, 1000, 5000, 20000]));
             }
-            case.tests = vec![T { cmd: Cmd::Chunks { chunks: vec![Chunk { fd: 1, data: p }] }, code: 0, ifs: None }];
+            case.tests = vec![T { cmd: Cmd::Chunks { chunks: vec![Chunk { fd: 1, data: p }] }, code: 0, ifs: None, pre: None, fail_last: false }];
         }
         2 | 3 => {
             let cram = fam == 3;
@@ -619,7 +626,7 @@ fn gen_case(tier: Tier, k: u64, rng: &mut Rng) -> Case {
             let n = rng.range(1, 6);
             for _ in 0..n {
                 let cmd = if rng.chance(1, 8) { gen_literal(rng, cram) } else { gen_chunks(rng, &case) };
-                case.tests.push(T { cmd, code: gen_code(rng), ifs: None });
+                case.tests.push(T { cmd, code: gen_code(rng), ifs: None, pre: None, fail_last: false });
             }
         }
         4 => {
@@ -632,7 +639,7 @@ fn gen_case(tier: Tier, k: u64, rng: &mut Rng) -> Case {
             case.strip = if case.strip == Some(true) { None } else { case.strip };
             let n = rng.range(1, 4);
             for _ in 0..n {
-                case.tests.push(T { cmd: gen_literal(rng, cram), code: gen_code(rng), ifs: None });
+                case.tests.push(T { cmd: gen_literal(rng, cram), code: gen_code(rng), ifs: None, pre: None, fail_last: false });
             }
         }
         5 => {
@@ -643,9 +650,9 @@ fn gen_case(tier: Tier, k: u64, rng: &mut Rng) -> Case {
             }
             case.strip = None;
             let n = tier.pick(1500, 6000) as u32;
-            case.tests.push(T { cmd: Cmd::Concurrent { out_lines: n / 2 + rng.below(n as usize / 2) as u32, err_lines: n / 2 + rng.below(n as usize / 2) as u32 }, code: gen_code(rng), ifs: None });
+            case.tests.push(T { cmd: Cmd::Concurrent { out_lines: n / 2 + rng.below(n as usize / 2) as u32, err_lines: n / 2 + rng.below(n as usize / 2) as u32 }, code: gen_code(rng), ifs: None, pre: None, fail_last: false });
             if rng.bool() {
-                case.tests.push(T { cmd: Cmd::Status { k: 3 }, code: 0, ifs: None });
+                case.tests.push(T { cmd: Cmd::Status { k: 3 }, code: 0, ifs: None, pre: None, fail_last: false });
             }
         }
         6 => {
@@ -665,9 +672,9 @@ fn gen_case(tier: Tier, k: u64, rng: &mut Rng) -> Case {
             } else {
                 Cmd::Both { out: big_payload(rng, a, "O"), err: big_payload(rng, b, "E") }
             };
-            case.tests.push(T { cmd, code: gen_code(rng), ifs: None });
+            case.tests.push(T { cmd, code: gen_code(rng), ifs: None, pre: None, fail_last: false });
             if rng.bool() {
-                case.tests.push(T { cmd: Cmd::Chunks { chunks: vec![Chunk { fd: 1, data: Payload::lit(b"after\n") }] }, code: 0, ifs: None });
+                case.tests.push(T { cmd: Cmd::Chunks { chunks: vec![Chunk { fd: 1, data: Payload::lit(b"after\n") }] }, code: 0, ifs: None, pre: None, fail_last: false });
             }
         }
         7 => {
@@ -678,7 +685,7 @@ fn gen_case(tier: Tier, k: u64, rng: &mut Rng) -> Case {
             let at = rng.below(n);
             for i in 0..n {
                 let cmd = if i == at { Cmd::Forge { exit_with: *rng.pick(&[0u8, 0, 5]) } } else { Cmd::Chunks { chunks: vec![Chunk { fd: 1, data: Payload::lit(b"real\n") }] } };
-                case.tests.push(T { cmd, code: 0, ifs: None });
+                case.tests.push(T { cmd, code: 0, ifs: None, pre: None, fail_last: false });
             }
         }
         9 => {
@@ -699,7 +706,7 @@ fn gen_case(tier: Tier, k: u64, rng: &mut Rng) -> Case {
                 } else {
                     *rng.pick(&[0u8, 0, 1, 9, 10, 42, 99, 123, 255])
                 };
-                case.tests.push(T { cmd, code: code, ifs: None });
+                case.tests.push(T { cmd, code: code, ifs: None, pre: None, fail_last: false });
             }
         }
         10 => {
@@ -731,7 +738,7 @@ fn gen_case(tier: Tier, k: u64, rng: &mut Rng) -> Case {
                 } else {
                     None
                 };
-                case.tests.push(T { cmd, code, ifs });
+                case.tests.push(T { cmd, code, ifs, pre: None, fail_last: false });
             }
         }
         11 => {
@@ -778,13 +785,13 @@ fn gen_case(tier: Tier, k: u64, rng: &mut Rng) -> Case {
                 0 | 1 => {
                     case.family = "strip-c0-render".into();
                     case.mode = "render".into();
-                    case.tests = vec![T { cmd: Cmd::Chunks { chunks: vec![Chunk { fd: 1, data: payload(rng, keep) }] }, code: 0, ifs: None }];
+                    case.tests = vec![T { cmd: Cmd::Chunks { chunks: vec![Chunk { fd: 1, data: payload(rng, keep) }] }, code: 0, ifs: None, pre: None, fail_last: false }];
                 }
                 2 | 3 => {
                     case.family = "strip-c0-markdown".into();
                     for _ in 0..rng.range(1, 2) {
                         let chunks = vec![Chunk { fd: 1, data: payload(rng, keep) }, Chunk { fd: 2, data: payload(rng, keep) }];
-                        case.tests.push(T { cmd: Cmd::Chunks { chunks }, code: gen_code(rng), ifs: None });
+                        case.tests.push(T { cmd: Cmd::Chunks { chunks }, code: gen_code(rng), ifs: None, pre: None, fail_last: false });
                     }
                 }
                 _ => {
@@ -792,9 +799,43 @@ fn gen_case(tier: Tier, k: u64, rng: &mut Rng) -> Case {
                     case.mode = "cram".into();
                     for _ in 0..rng.range(1, 2) {
                         let chunks = vec![Chunk { fd: 1, data: payload(rng, keep) }, Chunk { fd: 2, data: payload(rng, keep) }];
-                        case.tests.push(T { cmd: Cmd::Chunks { chunks }, code: gen_code(rng), ifs: None });
+                        case.tests.push(T { cmd: Cmd::Chunks { chunks }, code: gen_code(rng), ifs: None, pre: None, fail_last: false });
                     }
                 }
+            }
+        }
+        13 => {
+            // `set -e` and friends in one Markdown test, carried into the following ones: every
+            // test keeps its own exit code (0 and non-zero, by `exit N` and by a failing last command)
+            case.family = "errexit-markdown".into();
+            case.strip = None;
+            let n = rng.range(2, 5);
+            let at = rng.below(n - 1);
+            let mut on = false;
+            for i in 0..n {
+                let pre = if i == at {
+                    on = true;
+                    Some(rng.pick(&["set -e", "set -e", "set -eu", "set -euo pipefail", "set -o errexit", "set -o pipefail"]).to_string())
+                } else if on && rng.chance(1, 5) {
+                    on = false;
+                    Some(rng.pick(&["set +e", "set +eu"]).to_string())
+                } else {
+                    None
+                };
+                let cmd = match rng.below(3) {
+                    0 => Cmd::Literal { form: "printf".into(), text: format!("line {i}") },
+                    _ => {
+                        let mut l = text_line(rng);
+                        l.push(b'\n');
+                        let mut chunks = vec![Chunk { fd: 1, data: Payload::lit(&l) }];
+                        if rng.bool() {
+                            chunks.push(Chunk { fd: 2, data: Payload::lit(b"to stderr\n") });
+                        }
+                        Cmd::Chunks { chunks }
+                    }
+                };
+                let code = if rng.bool() { 0 } else { *rng.pick(&[1u8, 2, 3, 7, 42, 127, 255]) };
+                case.tests.push(T { cmd, code, ifs: None, pre, fail_last: rng.chance(2, 5) });
             }
         }
         12 => {
@@ -814,12 +855,12 @@ fn gen_case(tier: Tier, k: u64, rng: &mut Rng) -> Case {
                 v
             };
             if rng.bool() {
-                case.tests.push(T { cmd: Cmd::Chunks { chunks: small(rng) }, code: gen_code(rng), ifs: None });
+                case.tests.push(T { cmd: Cmd::Chunks { chunks: small(rng) }, code: gen_code(rng), ifs: None, pre: None, fail_last: false });
             }
-            case.tests.push(T { cmd: Cmd::Trace { flag: flag.into(), on: true, chunks: small(rng) }, code: gen_code(rng), ifs: None });
-            case.tests.push(T { cmd: Cmd::Trace { flag: flag.into(), on: false, chunks: small(rng) }, code: gen_code(rng), ifs: None });
+            case.tests.push(T { cmd: Cmd::Trace { flag: flag.into(), on: true, chunks: small(rng) }, code: gen_code(rng), ifs: None, pre: None, fail_last: false });
+            case.tests.push(T { cmd: Cmd::Trace { flag: flag.into(), on: false, chunks: small(rng) }, code: gen_code(rng), ifs: None, pre: None, fail_last: false });
             if rng.bool() {
-                case.tests.push(T { cmd: Cmd::Chunks { chunks: small(rng) }, code: gen_code(rng), ifs: None });
+                case.tests.push(T { cmd: Cmd::Chunks { chunks: small(rng) }, code: gen_code(rng), ifs: None, pre: None, fail_last: false });
             }
         }
         _ => {
@@ -830,7 +871,7 @@ fn gen_case(tier: Tier, k: u64, rng: &mut Rng) -> Case {
             let mut p = Payload::default();
             p.push(b"line of text\r\n", *rng.pick(&[5_000u32, 20_000]));
             p.push(b"\x1b[31mred\x1b[0m\n", 100);
-            case.tests = vec![T { cmd: Cmd::Chunks { chunks: vec![Chunk { fd: 1, data: p }] }, code: 0, ifs: None }];
+            case.tests = vec![T { cmd: Cmd::Chunks { chunks: vec![Chunk { fd: 1, data: p }] }, code: 0, ifs: None, pre: None, fail_last: false }];
         }
     }
     case
@@ -877,6 +918,9 @@ fn build(t: &T, idx: usize, n_tests: usize, case: &Case, dirs: &Dirs) -> std::io
     let mut lines: Vec<String> = vec![];
     if let Some(v) = &t.ifs {
         lines.push(format!("IFS={}", if v.is_empty() { "''".to_string() } else { sh_quote(v) }));
+    }
+    if let Some(p) = &t.pre {
+        lines.push(p.clone());
     }
     let (mut out, mut err, mut merged) = (vec![], vec![], vec![]);
     let mut expect_lines = None;
@@ -982,7 +1026,7 @@ fn build(t: &T, idx: usize, n_tests: usize, case: &Case, dirs: &Dirs) -> std::io
         }
     }
     if !exits {
-        if cram || (t.code != 0 && idx % 2 == 1) {
+        if cram || t.fail_last || (t.code != 0 && idx % 2 == 1) {
             lines.push(format!("(exit {})", t.code));
         } else {
             lines.push(format!("exit {}", t.code));
@@ -1183,6 +1227,19 @@ fn ifs_class(case: &Case) -> Option<&'static str> {
     }
 }
 
+const PRE_LINES: &[&str] = &["set -e", "set -eu", "set -o pipefail", "set -euo pipefail", "set -o errexit", "set +e", "set +eu", "set +o pipefail"];
+
+fn shellopt_class(case: &Case) -> Option<&'static str> {
+    let lines: Vec<&String> = case.tests.iter().filter_map(|t| t.pre.as_ref()).collect();
+    if lines.is_empty() {
+        None
+    } else if lines.iter().any(|l| l.starts_with("set -e") || l.contains("-o errexit")) {
+        Some("errexit")
+    } else {
+        Some("other")
+    }
+}
+
 fn check_exec(env: &Env, case: &Case) -> Checked {
     if ifs_class(case).is_some() && case.tests.iter().any(|t| matches!(t.cmd, Cmd::Concurrent { .. })) {
         return Checked::out_of_scope("the concurrent-writer loops use unquoted expansions: not combined with a user IFS");
@@ -1190,7 +1247,23 @@ fn check_exec(env: &Env, case: &Case) -> Checked {
     if trace_class(case).is_some() && (case.mode != "markdown" || ifs_class(case).is_some()) {
         return Checked::out_of_scope("set -x / set -v sequences are a Markdown-mode input");
     }
+    if let Some(cls) = shellopt_class(case) {
+        let ok_line = |p: &str| PRE_LINES.contains(&p);
+        if case.mode != "markdown" || !case.tests.iter().all(|t| t.pre.as_deref().map_or(true, ok_line)) {
+            return Checked::out_of_scope("`set` lines are a Markdown-mode input taken from a fixed list");
+        }
+        // under errexit a non-zero `(exit k)` in the middle of a command ends it there
+        if cls == "errexit" && case.tests.iter().any(|t| matches!(t.cmd, Cmd::Status { k } if k != 0) || matches!(t.cmd, Cmd::Concurrent { .. } | Cmd::Trace { .. })) {
+            return Checked::out_of_scope("command kinds that are not combined with errexit");
+        }
+    }
     let mut c = check_exec_inner(env, case);
+    if let (Some(cls), Verdict::Violated { sig, .. }) = (shellopt_class(case), &mut c.verdict) {
+        sig.push_str(&format!("/shellopt:{cls}"));
+    }
+    if shellopt_class(case).is_some() {
+        c = c.bucket("class:shellopt");
+    }
     if let (Some(cls), Verdict::Violated { sig, .. }) = (ifs_class(case), &mut c.verdict) {
         sig.push_str(&format!("/ifs:{cls}"));
     }
@@ -1510,6 +1583,16 @@ fn shrink_case(case: &Case) -> Vec<Case> {
             c.tests[i].ifs = None;
             v.push(c);
         }
+        if case.tests[i].pre.is_some() {
+            let mut c = case.clone();
+            c.tests[i].pre = None;
+            v.push(c);
+        }
+        if case.tests[i].fail_last {
+            let mut c = case.clone();
+            c.tests[i].fail_last = false;
+            v.push(c);
+        }
     }
     if case.keep_crlf.is_some() {
         let mut c = case.clone();
@@ -1548,7 +1631,7 @@ fn sample_of(case: &Case) -> Value {
                     "position": if *on { "last before exit" } else { "first" },
                     "chunks": chunks.iter().map(|c| format!("cat {} >&{}", c.data.describe(), c.fd)).collect::<Vec<_>>()}),
             };
-            json!({"ifs": t.ifs, "cmd": cmd, "exit": t.code})
+            json!({"ifs": t.ifs, "first_line": t.pre, "cmd": cmd, "exit": if t.fail_last { format!("(exit {})", t.code) } else { format!("exit {}", t.code) }})
         })
         .collect();
     json!({"family": case.family, "mode": case.mode, "output_stream": case.stream, "keep_crlf": case.keep_crlf, "strip_ansi_escaping": case.strip, "tests": tests})
@@ -1591,6 +1674,7 @@ impl Monitor for C13 {
             ("family:strip-c0-render".into(), f(1, 50)),
             ("family:strip-c0-markdown".into(), f(1, 50)),
             ("family:trace-markdown".into(), f(2, 100)),
+            ("family:errexit-markdown".into(), f(3, 150)),
             ("sequence>10".into(), f(2, 100)),
         ];
         p.assumptions = vec![
